@@ -19,6 +19,10 @@ pub enum Case {
         tol_exp: f64,
         #[serde(default)]
         lead: LeadScale,
+        /// one real root (if the set has one and no other root lies within 0.3 of the origin) is moved to +-10^tiny: a
+        /// root far smaller than the others, a constant coefficient that can fall below the tolerance
+        #[serde(default)]
+        tiny: Option<(f64, bool)>,
     },
     /// c_n x^n - c_0 set through set_coefficient (all low-order derivatives vanish at the origin)
     Sparse {
@@ -234,7 +238,17 @@ fn reference_zeros(family: u8, n: u32) -> Vec<f64> {
 pub fn run_case(case: &Case) -> Outcome {
     let mut o = Obs::new();
     match case {
-        Case::Roots { rs, complex_field, tol_exp, lead } => {
+        Case::Roots { rs, complex_field, tol_exp, lead, tiny } => {
+            let mut rs2 = rs.clone();
+            if let Some((e, neg)) = tiny {
+                if let Some(k) = rs2.roots.iter().position(|r| r.1 == 0.0) {
+                    if rs2.roots.iter().enumerate().all(|(j, r)| j == k || (r.0 * r.0 + r.1 * r.1).sqrt() >= 0.3) {
+                        rs2.roots[k].0 = if *neg { -(10f64.powf(*e)) } else { 10f64.powf(*e) };
+                        o.label("tiny-root");
+                    }
+                }
+            }
+            let rs = &rs2;
             let truth = rs.all_roots();
             let n = truth.len();
             let real_field = rs.real_coeffs && !*complex_field;
@@ -378,7 +392,7 @@ pub fn run_case(case: &Case) -> Outcome {
 
 fn strategy(_t: Tier) -> BoxedStrategy<Case> {
     let rs = prop_oneof![2 => real_roots_only(1, 10), 3 => real_rootset(1, 10), 3 => complex_rootset(1, 10)];
-    let roots = (rs, any::<bool>(), prop_oneof![4 => gen::fl(0.0, 1.0), 1 => gen::fl(1.0, 2.0)], lead_scale()).prop_map(|(rs, complex_field, tol_exp, lead)| Case::Roots { rs, complex_field, tol_exp, lead });
+    let roots = (rs, any::<bool>(), prop_oneof![4 => gen::fl(0.0, 1.0), 1 => gen::fl(1.0, 2.0)], lead_scale(), prop_oneof![5 => Just(None), 1 => (gen::fl(-9.0, -2.0), any::<bool>()).prop_map(Some)]).prop_map(|(rs, complex_field, tol_exp, lead, tiny)| Case::Roots { rs, complex_field, tol_exp, lead, tiny });
     let sparse = (3usize..=10, (gen::logu(-1.0, 1.0), gen::sign()), gen::fl(0.6, 2.5), gen::fl(0.0, 6.28), any::<bool>(), gen::fl(0.0, 1.0), lead_scale())
         .prop_map(|(n, (m, s), rho, phi, complex_field, tol_exp, lead)| Case::Sparse { n, cn: m * s, rho, phi, complex_field, tol_exp, lead });
     prop_oneof![5 => roots, 1 => sparse].boxed()
